@@ -378,3 +378,90 @@ func c18CreditTarget(c *Ctx, pkg string) {
 		c.Check("C18.W5", fk+":credits-named-window", add.Pos(), !bad, "the connection window is credited only when the stream id is 0; an update for a stream without state is dropped", "a WINDOW_UPDATE naming a stream that no longer exists can reach flow.add on the connection window: the peer's credit for one (closed) stream inflates the connection send window and MOSN can send more DATA than the peer granted")
 	}
 }
+
+// c18HpackTable (W7): the encoder's dynamic table mirrors the peer decoder's across size changes.
+// The peer applies every "dynamic table size update" the moment it decodes it, evicting down to the announced size. The
+// encoder announces the minimum size it was set to since the last header block and then the final size; it stays in step
+// with the peer only if its own table was really shrunk to each size it was set to, at the time it was set. Clauses:
+//  (a) wherever dynamicTable.maxSize is written, evict() follows on every path
+//      (size <= maxSize is an invariant of the table, never re-established lazily);
+//  (b) every growth of dynamicTable.size is followed by evict() on every path;
+//  (c) a function that lowers Encoder.minSize to v, or raises the tableSizeUpdate flag, also applies setMaxSize to the
+//      table on that path - what will be announced has been applied.
+func c18HpackTable(c *Ctx) {
+	pkg := "pkg/module/http2/hpack"
+	isEvict := func(in ssa.Instruction) bool {
+		ci, ok := in.(ssa.CallInstruction)
+		if !ok {
+			return false
+		}
+		f := ci.Common().StaticCallee()
+		return f != nil && strings.HasSuffix(f.String(), "dynamicTable).evict")
+	}
+	isSetMax := func(in ssa.Instruction) bool {
+		ci, ok := in.(ssa.CallInstruction)
+		if !ok {
+			return false
+		}
+		f := ci.Common().StaticCallee()
+		return f != nil && strings.HasSuffix(f.String(), "dynamicTable).setMaxSize")
+	}
+	// applying a size = setMaxSize, or a direct write of the table's maxSize (clause (a) makes evict() follow it)
+	isApply := func(in ssa.Instruction) bool {
+		if isSetMax(in) {
+			return true
+		}
+		if st, ok := in.(*ssa.Store); ok {
+			if tn, fld, _, okf := fieldAddrInfo(st.Addr); okf && strings.HasSuffix(tn, "hpack.dynamicTable") && fld == "maxSize" {
+				return true
+			}
+		}
+		return false
+	}
+	anyReturn := func(in ssa.Instruction) bool { _, ok := in.(*ssa.Return); return ok }
+	na, nb, nc := 0, 0, 0
+	ord := ordCounter{}
+	for _, fn := range c.PkgFuncs(pkg) {
+		forEachInstr(fn, false, func(f *ssa.Function, in ssa.Instruction) {
+			st, ok := in.(*ssa.Store)
+			if !ok {
+				return
+			}
+			tn, fld, _, okf := fieldAddrInfo(st.Addr)
+			if !okf {
+				return
+			}
+			switch {
+			case strings.HasSuffix(tn, "hpack.dynamicTable") && fld == "maxSize":
+				na++
+				key := ord.next(f, "table-bound-kept")
+				esc := existsPath(f, in, anyReturn, isEvict)
+				c.Check("C18.W7", key, in.Pos(), esc == nil, "evict() follows on every path", "the dynamic table's maximum size is changed without evicting at once (in "+f.Name()+"): the table keeps entries beyond the new size until some later point, while the peer's decoder evicts when it reads each size update - after a decrease followed by an increase the encoder refers to entries the peer no longer has (COMPRESSION_ERROR, or silently different headers)")
+			case strings.HasSuffix(tn, "hpack.dynamicTable") && fld == "size":
+				bo, isB := st.Val.(*ssa.BinOp)
+				if !isB || bo.Op != token.ADD {
+					return
+				}
+				nb++
+				key := ord.next(f, "growth-evicts")
+				esc := existsPath(f, in, anyReturn, isEvict)
+				c.Check("C18.W7", key, in.Pos(), esc == nil, "evict() follows every growth of the table", "the dynamic table grows in "+f.Name()+" without evict() on every path: it can exceed the size the peer allows, and the two tables diverge")
+			case strings.HasSuffix(tn, "hpack.Encoder") && (fld == "minSize" || fld == "tableSizeUpdate"):
+				if fld == "minSize" {
+					if _, isC := st.Val.(*ssa.Const); isC {
+						return // the reset to "nothing pending"
+					}
+				} else if b, isC := constBool(st.Val); !isC || !b {
+					return
+				}
+				nc++
+				key := ord.next(f, "announced-size-applied:"+fld)
+				esc := existsPath(f, in, anyReturn, isApply)
+				c.Check("C18.W7", key, in.Pos(), esc == nil, "setMaxSize is applied to the table on every path from here", "the encoder notes a table size to announce ("+fld+" in "+f.Name()+") without applying it to its own table on that path: the peer evicts down to the announced size and the encoder does not")
+			}
+		})
+	}
+	if na < 1 || nb < 1 || nc < 2 {
+		c.Unresolved("C18.W7", fmt.Sprintf("hpack table writers (maxSize stores=%d, size growths=%d, encoder announcements=%d)", na, nb, nc))
+	}
+}
